@@ -225,6 +225,9 @@ def mode_sweep(args):
     sg = mode_scheduler_graphs({})
     failures.extend(sg['failures'])
     done += sg['evaluations']
+    wd = mode_wide({})
+    failures.extend(wd['failures'])
+    done += wd['evaluations']
     return {'evaluations': done + cyc['evaluations'], 'distinct': done + cyc['evaluations'], 'exhaustive': exhaustive,
             'total_cases': len(cases), 'failures': failures, 'seconds': round(time.time() - t0, 2)}
 
@@ -437,6 +440,46 @@ def mode_scheduler_graphs(args):
                 failures.append({'input': {'scheduler_graphs': 'same graph objects', 'edges': [[i, j, kd] for (i, j), kd in sorted(edges.items())], 'outcomes': outcomes,
                                            'workers_of_successive_schedulers': list(workers_seq)}, 'observed': probs[:3],
                                  'expected': 'every scheduler built from the same graphs gives the same statuses; the graphs are left as they were'})
+                break
+    return {'evaluations': n, 'failures': failures}
+
+
+def mode_wide(args):
+    """C03: many tasks ready at once (hundreds of independent tasks plus one task depending on all of them) with few workers: the master fills the queue
+    while the workers are busy; schedule() comes back with everything DONE"""
+    from valjean.cosette.depgraph import DepGraph
+    from valjean.cosette.scheduler import Scheduler
+    from valjean.cosette.backends.queue import QueueScheduling
+    from valjean.cosette.env import Env
+    failures, n = [], 0
+    for width, workers in ((300, 1), (450, 2), (1200, 4)):
+        log = []
+        edges = {(i, width): 'h' for i in range(0, width, 7)}
+        tasks = _mk_tasks(width + 1, edges, ['done'] * (width + 1), log)
+        hard, soft = _graphs(tasks, edges)
+        out = {}
+
+        def target():
+            try:
+                out['env'] = Scheduler(hard_graph=hard, soft_graph=soft, backend=QueueScheduling(n_workers=workers)).schedule(env=Env())
+            except BaseException as e:     # noqa
+                out['exc'] = repr(e)
+        th = threading.Thread(target=target, daemon=True)
+        th.start()
+        th.join(4 * HANG_S)
+        n += 1
+        probs = []
+        if th.is_alive():
+            probs.append(f'C03: schedule() did not come back with {width + 1} tasks on {workers} worker(s)')
+        elif 'exc' in out:
+            probs.append(f'C03: raised {out["exc"]}')
+        else:
+            bad = [k for k, v in out['env'].items() if getattr(v.get('status'), 'name', None) != 'DONE']
+            if bad or len(out['env']) != width + 1:
+                probs.append(f'C02: {len(bad)} task(s) not DONE out of {width + 1}')
+        if probs:
+            failures.append({'input': {'wide': True, 'independent_tasks': width, 'workers': workers}, 'observed': probs, 'expected': 'returns, every task DONE'})
+            if th.is_alive():
                 break
     return {'evaluations': n, 'failures': failures}
 
@@ -837,7 +880,7 @@ def mode_rerun_single(args):
     return {'problems': _rerun_case(args['n'], edges, args['first_run'], args['between'])}
 
 
-MODES = {'scheduler_graphs': mode_scheduler_graphs, 'master_error': mode_master_error, 'nested': mode_nested, 'twice': mode_twice, 'sweep': mode_sweep, 'cyclic': mode_cyclic, 'park': mode_park, 'rerun': mode_rerun, 'single': mode_single,
+MODES = {'wide': mode_wide, 'scheduler_graphs': mode_scheduler_graphs, 'master_error': mode_master_error, 'nested': mode_nested, 'twice': mode_twice, 'sweep': mode_sweep, 'cyclic': mode_cyclic, 'park': mode_park, 'rerun': mode_rerun, 'single': mode_single,
          'rerun_single': mode_rerun_single}
 
 
